@@ -113,7 +113,7 @@ func LibDesc(p tds.Package) string {
 			s += " " + valueDesc(d.Format().DataType(), d.Value())
 		}
 		return s
-	case tds.HeaderOnlyPackage:
+	case *tds.HeaderOnlyPackage:
 		return "HEADERONLY " + x.String()
 	}
 	return fmt.Sprintf("%T %s", p, p)
